@@ -6,13 +6,103 @@ package main
 import (
 	"bytes"
 	"fmt"
+	"strconv"
 
 	pb "github.com/lni/dragonboat/v4/raftpb"
 	hooks "github.com/lni/dragonboat/v4/verifhooks/c13"
 	"verif/harness/vh"
 )
 
+// payloadByRule builds a payload from a generator rule (the same construction
+// is in ocaml/c13/driver.ml, op PAYR): highly compressible payloads are
+// described, not spelled out, in the case file.
+//   rep a b     b copies of the byte a
+//   recpad a b  a 40 byte record derived from a, followed by b zero bytes
+//   runs a b    b bytes in runs of 97 equal bytes starting at a
+func payloadByRule(rule string, a, b int) []byte {
+	switch rule {
+	case "rep":
+		return bytes.Repeat([]byte{byte(a)}, b)
+	case "recpad":
+		p := make([]byte, 40+b)
+		for i := 0; i < 40; i++ {
+			p[i] = byte(a*31 + i*7)
+		}
+		return p
+	case "runs":
+		p := make([]byte, b)
+		for i := range p {
+			p[i] = byte(a + i/97)
+		}
+		return p
+	}
+	panic("unknown rule " + rule)
+}
+
+func digest(b []byte) int {
+	s := 7
+	for _, x := range b {
+		s = (s*31 + int(x)) % 1000000007
+	}
+	return s
+}
+
+func snappyBlock(cmd []byte) ([]byte, bool) {
+	var block []byte
+	okc := false
+	if p := vh.Catch(func() {
+		max, ok := hooks.MaxEncodedLen(hooks.Snappy, uint64(len(cmd)))
+		if ok {
+			dst := make([]byte, max)
+			block = dst[:hooks.CompressSnappyBlock(cmd, dst)]
+			okc = true
+		}
+	}); p != "" || !okc {
+		return nil, false
+	}
+	return block, true
+}
+
+// genPayloadRules: highly compressible payloads (snappy reaches 21.33x on long
+// runs: a copy element of 3 bytes yields 64 bytes) around the sizes where the
+// ratio crosses 16x / 20x / 21x, and long ones.
+func genPayloadRules(r *vh.Rand, w *vh.LineWriter, next int, tier string) int {
+	type rc struct {
+		rule string
+		a, b int
+	}
+	cases := []rc{
+		{"rep", 0, 1024}, {"rep", 0, 4096}, {"rep", r.Intn(256), 5300 + r.Intn(60)}, {"rep", 0, 5400}, {"rep", 255, 5500 + r.Intn(200)},
+		{"rep", 0, 8192}, {"rep", r.Intn(256), 65536}, {"rep", 0, 65537}, {"rep", r.Intn(256), 100000 + r.Intn(50000)},
+		{"recpad", r.Intn(1000), 4096}, {"recpad", r.Intn(1000), 65536}, {"recpad", r.Intn(1000), 262144},
+		{"runs", r.Intn(256), 8192}, {"runs", r.Intn(256), 70000},
+	}
+	if tier == "thorough" {
+		for i := 0; i < 300; i++ {
+			cases = append(cases, rc{[]string{"rep", "recpad", "runs"}[r.Intn(3)], r.Intn(256), 1 + r.Intn(1<<20)})
+		}
+		cases = append(cases, rc{"rep", 0, 16 << 20})
+	}
+	for _, c := range cases {
+		cmd := payloadByRule(c.rule, c.a, c.b)
+		for ct := 0; ct < 2; ct++ {
+			block := []byte{}
+			if ct == 1 {
+				b, ok := snappyBlock(cmd)
+				if !ok {
+					continue
+				}
+				block = b
+			}
+			w.Printf("%d PAYR %d %s %d %d %s\n", next, ct, c.rule, c.a, c.b, vh.Hex(block))
+			next++
+		}
+	}
+	return next
+}
+
 func genPayload(r *vh.Rand, w *vh.LineWriter, next int, tier string) int {
+	next = genPayloadRules(r, w, next, tier)
 	n := 300
 	if tier == "thorough" {
 		n = 50000
@@ -106,6 +196,42 @@ func runPayload(id string, f []string, line string, obs *vh.LineWriter, st *vh.S
 			st.Violation(id, fmt.Sprintf("uncompressed payload encoding has %d bytes for a %d byte payload", len(enc), len(cmd)))
 		}
 		st.Count("payload.ct=" + f[1])
+		st.Case(line, f[1] == "1", "")
+	case "PAYR":
+		a, err := strconv.Atoi(f[3])
+		must(err)
+		b, err := strconv.Atoi(f[4])
+		must(err)
+		cmd := payloadByRule(f[2], a, b)
+		ct := hooks.NoCompression
+		if f[1] == "1" {
+			ct = hooks.Snappy
+		}
+		var enc []byte
+		if p := vh.Catch(func() { enc = hooks.GetEncoded(ct, cmd, nil) }); p != "" {
+			obs.Printf("%s PAYR panic\n", id)
+			st.Violation(id, "GetEncoded panicked on a non-empty payload: "+p)
+			return
+		}
+		var out []byte
+		var derr error
+		dec := ""
+		if p := vh.Catch(func() { out, derr = hooks.GetPayload(pb.Entry{Type: pb.EncodedEntry, Cmd: enc}) }); p != "" {
+			dec = "panic"
+		} else if derr != nil {
+			dec = "err"
+		} else {
+			dec = fmt.Sprintf("ok %d %d", len(out), digest(out))
+		}
+		obs.Printf("%s PAYR ENCLEN %d ENCSUM %d DEC %s\n", id, len(enc), digest(enc), dec)
+		if dec[:2] != "ok" || !bytes.Equal(out, cmd) {
+			ratio := 0.0
+			if len(enc) > 1 {
+				ratio = float64(len(cmd)) / float64(len(enc)-1)
+			}
+			st.Violation(id, fmt.Sprintf("payload roundtrip: GetPayload(GetEncoded(ct=%s, %s %d x%d)) = %s, want the %d byte payload back (compression ratio %.2f)", f[1], f[2], a, b, dec, len(cmd), ratio))
+		}
+		st.Count("payload.rule." + f[2] + ".ct=" + f[1])
 		st.Case(line, f[1] == "1", "")
 	case "PAYDEC":
 		obs.Printf("%s PAYDEC %s\n", id, payloadObs(vh.UnHex(f[1])))
